@@ -19,7 +19,7 @@ import numpy as np
 from vlib import dsl, gen
 from vlib.fitcase import Member, norm_op
 from vlib.models import Model
-from vlib.monitor import Tol, allclose, fmt_exc, maxdiff
+from vlib.monitor import Tol, allclose, fmt_exc, maxdiff, numerical_failure
 from vlib.ref import COST_ALIASES, NEEDS_ERRORS, POISSON, pd_info
 
 PROPERTY = "C03"
@@ -523,7 +523,10 @@ def run_case(ctx, case):
             # T1: same mutators, no reads, this observable first
             try:
                 t1 = build_T1(case, mutators)
-            except Exception:
+            except Exception as e:
+                if numerical_failure(e):
+                    ctx.discard("twin-do_fit-ill-posed")
+                    break
                 ctx.violation(None, "T1.build.no-exception", dict(detail, traceback=fmt_exc()))
                 break
             b = read_obs(t1.fit, obs)
@@ -556,11 +559,13 @@ def run_case(ctx, case):
                         continue
                     try:
                         live.fit.do_fit()
-                    except (np.linalg.LinAlgError, RuntimeError, FloatingPointError):
-                        # ill-posed problem (singular Hessian at the optimum): not a statement about history dependence
-                        ctx.discard("do_fit-ill-posed")
-                        executed.pop()
-                        break
+                    except Exception as e:
+                        # ill-posed problem (singular / nan numerical Hessian at the optimum): not a statement about history dependence
+                        if numerical_failure(e):
+                            ctx.discard("do_fit-ill-posed")
+                            executed.pop()
+                            break
+                        raise
                     live.sync_from_fit()
                     n_do_fit += 1
                     has_fit = True
